@@ -748,7 +748,23 @@ pub(crate) fn read_filter_block(
 	if location.size() == 0 {
 		return Err(Error::FilterBlockEmpty);
 	}
-	let buf = read_bytes(src, location)?;
+	let buf = read_bytes(Arc::clone(&src), location)?;
+
+	// The filter block is written with the same trailer as every other block
+	// (compression type + masked CRC). Verify it before trusting the contents:
+	// a damaged filter would otherwise hide keys that are present (or panic
+	// while its offsets are decoded).
+	let trailer = read_bytes(
+		src,
+		&BlockHandle::new(location.offset() + location.size(), BLOCK_COMPRESS_LEN + BLOCK_CKSUM_LEN),
+	)?;
+	let want = u32::decode_fixed(&trailer[BLOCK_COMPRESS_LEN..]).map(unmask);
+	if want.is_none_or(|want| !verify_table_block(&buf, trailer[0], want)) {
+		return Err(Error::from(SSTableError::ChecksumVerificationFailed {
+			block_offset: location.offset() as u64,
+		}));
+	}
+
 	Ok(FilterBlockReader::new(buf, policy))
 }
 
